@@ -181,11 +181,12 @@ c_Fixed == {tla(FIXED_OBJ)}
     if len(ohist) > cap:
         ohist = rnd.sample(ohist, cap)
     for k, h in enumerate(ohist):
-        h["rb_mismatch"] = k % 2 == 1      # every other history: the stored g-function belongs to another borehole radius (radius correction on every grab)
+        h["rb_mismatch"] = k % 3 == 1      # every third history: the stored g-function belongs to another borehole radius (radius correction on every grab)
+        h["multi_gf"] = k % 3 == 2         # every third history: the object starts with a two-height g-function family (interpolation table in use before compute_g)
     for h, r in zip(ohist, parallel_map(_exec_object_history, ohist)):
         chk.nontrivial.add(("obj", tuple(map(tuple, h["hist"]))))
         if r.get("bad"):
-            chk.violation(f"C13 object history {h['hist']}{' (stored g-function of another borehole radius)' if h.get('rb_mismatch') else ''}: {r['bad'][0]}", {"history": h["hist"], "bad": r["bad"]})
+            chk.violation(f"C13 object history {h['hist']}{' (stored g-function of another borehole radius)' if h.get('rb_mismatch') else ' (two-height g-function family at the start)' if h.get('multi_gf') else ''}: {r['bad'][0]}", {"history": h["hist"], "bad": r["bad"]})
     chk.traces += len(ohist)
     chk.note("object_histories", len(ohist))
     for b in parallel_map(_shared_inputs_case, [0], procs=1)[0]:
@@ -287,7 +288,7 @@ def _shared_inputs_case(_):
 _BASE = {}
 
 
-def _mk_ghe(loads=None, months=12, gf_rb=None):
+def _mk_ghe(loads=None, months=12, gf_rb=None, gf_heights=None):
     import_repo()
     from ghedesigner.borehole import GHEBorehole  # noqa: PLC0415
     from ghedesigner.coordinates import rectangle  # noqa: PLC0415
@@ -306,7 +307,8 @@ def _mk_ghe(loads=None, months=12, gf_rb=None):
     sp = SimulationParameters(1, months, 35.0, 5.0, 135.0, 60.0)
     m_flow = 0.3 / 1000.0 * fluid.rho
     # gf_rb: radius the stored g-function was computed for; when it differs from the exchanger's, every grab applies the radius correction
-    gfn = calc_g_func_for_multiple_lengths(5.0, [bore.H], bore.r_b if gf_rb is None else gf_rb, bore.D, m_flow, BHPipeType.SINGLEUTUBE, eskilson_log_times(), coords, fluid, pipe, grout, soil)
+    # gf_heights: the object is handed a g-function family with several stored heights (interpolation table, cache) instead of one curve
+    gfn = calc_g_func_for_multiple_lengths(5.0, [bore.H] if gf_heights is None else list(gf_heights), bore.r_b if gf_rb is None else gf_rb, bore.D, m_flow, BHPipeType.SINGLEUTUBE, eskilson_log_times(), coords, fluid, pipe, grout, soil)
     return GHE(0.3 * 4, 5.0, BHPipeType.SINGLEUTUBE, fluid, bore, pipe, grout, soil, gfn, sp, profile(9000.0) if loads is None else loads)
 
 
@@ -330,7 +332,8 @@ def _exec_object_history(item):
         warnings.simplefilter("ignore")
         try:
             rb = 0.0762 if item.get("rb_mismatch") else None
-            g = _mk_ghe(gf_rb=rb)
+            gh = (55.0, 140.0) if item.get("multi_gf") else None
+            g = _mk_ghe(gf_rb=rb, gf_heights=gh)
             out = None
             for call in item["hist"]:
                 op = call[0]
@@ -349,7 +352,7 @@ def _exec_object_history(item):
             out = (float(g.bhe.b.H).hex(), fhash(g.hp_eft), len(g.times))
             # reference: a fresh object brought to the same (gf, H) without any other simulation, then the last call alone
             last = item["hist"][-1][0]
-            ref = _mk_ghe(gf_rb=rb)
+            ref = _mk_ghe(gf_rb=rb, gf_heights=gh)
             if item["gf"] == "triple":
                 ref.compute_g_functions()
             # height the last call saw
@@ -364,7 +367,7 @@ def _exec_object_history(item):
                 if hsaw is not None:
                     ref.bhe.b.H = hsaw
                 elif isinstance(hcell, list):      # <<"root", gf>> : a sized height - reproduce it with a size on a fresh object of that family
-                    r2 = _mk_ghe(gf_rb=rb)
+                    r2 = _mk_ghe(gf_rb=rb, gf_heights=gh)
                     if hcell[1] == "triple":
                         r2.compute_g_functions()
                     r2.size(TimestepType.HYBRID)
